@@ -118,7 +118,7 @@ type Service struct {
 
 	pauseController   *PauseController
 	rolloutController *RolloutController
-	serviceLock       sync.Mutex
+	serviceLock       sync.RWMutex
 
 	certManager CertManager
 	middleware  http.Handler
@@ -143,18 +143,18 @@ func (s *Service) CopyWithOptions(options ServiceOptions, targetOptions TargetOp
 		return nil, err
 	}
 
-	service.active = s.active
-	service.rollout = s.rollout
+	service.active, service.rollout, service.rolloutController = s.loadBalancers()
 	service.pauseController = s.pauseController
-	service.rolloutController = s.rolloutController
 
 	return service, service.initialize()
 }
 
 func (s *Service) Dispose() {
-	s.active.Dispose()
-	if s.rollout != nil {
-		s.rollout.Dispose()
+	active, rollout, _ := s.loadBalancers()
+
+	active.Dispose()
+	if rollout != nil {
+		rollout.Dispose()
 	}
 }
 
@@ -217,19 +217,21 @@ type marshalledService struct {
 }
 
 func (s *Service) MarshalJSON() ([]byte, error) {
+	active, rollout, rolloutController := s.loadBalancers()
+
 	var rolloutTargets []string
-	if s.rollout != nil {
-		rolloutTargets = s.rollout.Targets().Names()
+	if rollout != nil {
+		rolloutTargets = rollout.Targets().Names()
 	}
 
 	return json.Marshal(marshalledService{
 		Name:              s.name,
-		ActiveTargets:     s.active.Targets().Names(),
+		ActiveTargets:     active.Targets().Names(),
 		RolloutTargets:    rolloutTargets,
 		Options:           s.options,
 		TargetOptions:     s.targetOptions,
 		PauseController:   s.pauseController,
-		RolloutController: s.rolloutController,
+		RolloutController: rolloutController,
 	})
 }
 
@@ -337,23 +339,32 @@ func (s *Service) initialize() error {
 }
 
 func (s *Service) Drain(timeout time.Duration) {
+	active, rollout, _ := s.loadBalancers()
+
 	PerformConcurrently(
 		func() {
-			s.active.DrainAll(timeout)
+			active.DrainAll(timeout)
 		},
 		func() {
-			if s.rollout != nil {
-				s.rollout.DrainAll(timeout)
+			if rollout != nil {
+				rollout.DrainAll(timeout)
 			}
 		},
 	)
 }
 
+func (s *Service) loadBalancers() (active *LoadBalancer, rollout *LoadBalancer, rolloutController *RolloutController) {
+	s.serviceLock.RLock()
+	defer s.serviceLock.RUnlock()
+
+	return s.active, s.rollout, s.rolloutController
+}
+
 func (s *Service) loadBalancerForRequest(req *http.Request) *LoadBalancer {
-	lb := s.active
-	if s.rollout != nil && s.rolloutController != nil && s.rolloutController.RequestUsesRolloutGroup(req) {
+	lb, rollout, rolloutController := s.loadBalancers()
+	if rollout != nil && rolloutController != nil && rolloutController.RequestUsesRolloutGroup(req) {
 		slog.Debug("Using rollout for request", "service", s.name, "path", req.URL.Path)
-		lb = s.rollout
+		lb = rollout
 	}
 
 	return lb
